@@ -83,22 +83,95 @@ theorem slice_one (s : Bytes) (h : 1 ≤ s.length) : slice s 1 s.length = .ok (s
 
 /-! ### One iteration on an option word -/
 
-/-- The state after an option word. -/
+/-- The state after an option word: its options are delivered, except those
+written `--name=value` for a no-argument option, which go to `extraArg`. -/
 def afterWord (st : PState) (r : List Item × Awaiting) : PState :=
   match r.2 with
-  | none => { st with opts := st.opts ++ optsOf true r.1 }
-  | some (k, sp, l) => { st with opts := st.opts ++ optsOf true r.1, opt := some (known k sp l []) }
+  | none => { st with opts := st.opts ++ optsOf false r.1, extraArg := st.extraArg ++ extraOf r.1 }
+  | some (k, sp, l) =>
+    { st with opts := st.opts ++ optsOf false r.1, opt := some (known k sp l []),
+              extraArg := st.extraArg ++ extraOf r.1 }
+
+/-- Without a `badArg` item the strict and the lenient reading deliver the same options … -/
+theorem optsOf_false_eq (l : List Item) (h : l.any isBadArg = false) : optsOf false l = optsOf true l := by
+  induction l with
+  | nil => rfl
+  | cons a l ih =>
+    simp only [List.any_cons, Bool.or_eq_false_iff] at h
+    have ih' := ih h.2
+    have hc : ∀ b, optsOf b (a :: l) =
+        (match Item.toOpt b a with | some o => [o] | none => []) ++ optsOf b l := by
+      intro b
+      unfold optsOf
+      rw [List.filterMap_cons]
+      cases Item.toOpt b a <;> rfl
+    rw [hc, hc, ih']
+    cases a <;> simp_all [Item.toOpt, isBadArg]
+
+/-- … and none is set aside. -/
+theorem extraOf_eq_nil (l : List Item) (h : l.any isBadArg = false) : extraOf l = [] := by
+  induction l with
+  | nil => rfl
+  | cons a l ih =>
+    simp only [List.any_cons, Bool.or_eq_false_iff] at h
+    have ih' := ih h.2
+    unfold extraOf at ih' ⊢
+    rw [List.filterMap_cons]
+    cases a <;> simp_all [isBadArg]
+
+theorem clusterN_noBad (specs : List OptionSpec) (n : Nat) :
+    ∀ s, (clusterN specs n s).1.any isBadArg = false := by
+  induction n with
+  | zero => intro s; simp [clusterN]
+  | succ n ih =>
+    intro s
+    cases s with
+    | nil => simp [clusterN]
+    | cons b t =>
+      rw [clusterN]
+      rcases lookupShort specs (decodeRune (b :: t)).1 with _ | ⟨k, sp⟩
+      · simp [isBadArg]
+      · rcases ha : arityOf sp.arity with _ | _ | _
+        · simp only [ha, List.any_cons, isBadArg, Bool.false_or]
+          exact ih _
+        · simp only [ha]; split <;> simp [isBadArg]
+        · simp [ha, isBadArg]
+
+/-- A long word with a `badArg` item is that item alone. -/
+theorem longWord_bad (specs : List OptionSpec) (s : Bytes) (h : (longWord specs s).1.any isBadArg = true) :
+    optsOf false (longWord specs s).1 = [] ∧
+    extraOf (longWord specs s).1 = optsOf true (longWord specs s).1 ∧ (longWord specs s).2 = none := by
+  revert h
+  unfold longWord
+  rcases splitEq s with ⟨name, value⟩
+  simp only
+  rcases lookupLong specs name with _ | ⟨k, sp⟩
+  · simp [isBadArg]
+  · rcases ha : arityOf sp.arity with _ | _ | _ <;> rcases value with _ | v <;>
+      simp [ha, isBadArg, optsOf, extraOf, Item.toOpt]
 
 theorem afterLong (specs : List OptionSpec) (hwf : WF specs) (st : PState) (s : Bytes) :
     (match parseLong true s specs with
-      | .ok (newopt, needArg) =>
-        if needArg then Res.ok { st with opt := some newopt }
+      | .ok (newopt, needArg, extra) =>
+        if extra then Res.ok { st with extraArg := st.extraArg ++ [newopt] }
+        else if needArg then .ok { st with opt := some newopt }
         else .ok { st with opts := st.opts ++ [newopt] }
       | .exc x => .exc x
       | .panic p => .panic p) = .ok (afterWord st (longWord specs s)) := by
   obtain ⟨o, h1, h2⟩ := parseLong_eq specs hwf s
   rw [h2]
+  by_cases hb : (longWord specs s).1.any isBadArg = true
+  · obtain ⟨b1, b2, b3⟩ := longWord_bad specs s hb
+    have ho : optsOf true (longWord specs s).1 = [o] := by
+      unfold wordOpts at h1; rw [b3] at h1; simpa using h1
+    unfold afterWord
+    simp only [hb, if_true, b3]
+    rw [b1, b2, ho]
+    simp
+  have hb' : (longWord specs s).1.any isBadArg = false := by simpa using hb
+  simp only [hb', Bool.false_eq_true, if_false]
   unfold afterWord
+  rw [optsOf_false_eq _ hb', extraOf_eq_nil _ hb']
   unfold wordOpts at h1
   rcases hr : (longWord specs s).2 with _ | ⟨k, sp, l⟩
   · rw [hr] at h1
@@ -128,7 +201,9 @@ theorem afterShort (specs : List OptionSpec) (st : PState) (s : Bytes) :
       | .exc x => .exc x
       | .panic p => .panic p) = .ok (afterWord st (cluster specs s)) := by
   rw [parseShort_eq]
+  have hb : (cluster specs s).1.any isBadArg = false := clusterN_noBad specs _ s
   unfold afterWord wordOpts
+  rw [optsOf_false_eq _ hb, extraOf_eq_nil _ hb]
   rcases hr : (cluster specs s).2 with _ | ⟨k, sp, l⟩
   · simp
   · simp only [Option.isSome_some, if_true]
@@ -139,7 +214,7 @@ theorem parseStep_optionWord (specs : List OptionSpec) (hwf : WF specs) (cfg : N
     (w : Bytes) (h1 : st.opt = none) (h2 : st.stopOpt = false)
     (h3 : (has cfg StopAfterDoubleDash && w == dd) = false) (h4 : isOptionWord w = true) :
     parseStep true specs cfg st w = .ok (afterWord st (optionWord cfg specs w)) := by
-  obtain ⟨opts, nonOpt, opt, stop⟩ := st
+  obtain ⟨opts, nonOpt, opt, stop, extra⟩ := st
   simp only at h1 h2
   subst h1 h2
   unfold parseStep
@@ -153,27 +228,34 @@ theorem parseStep_optionWord (specs : List OptionSpec) (hwf : WF specs) (cfg : N
       rcases w with _ | ⟨a, _ | ⟨b, t⟩⟩ <;> simp_all [hasPrefix, dd]
     simp only [hdd, hndd, Bool.and_self, if_true]
     rw [slice_two w hlen]
-    exact afterLong specs hwf ⟨opts, nonOpt, none, false⟩ _
+    exact afterLong specs hwf ⟨opts, nonOpt, none, false, extra⟩ _
   · have hlen : 1 ≤ w.length := by
       rcases w with _ | ⟨a, t⟩ <;> simp_all [hasPrefix]
     simp only [hdd, Bool.false_and, Bool.false_eq_true, if_false, hp, hndd, hnd, Bool.and_self, if_true]
     rw [slice_one w hlen]
     by_cases hlo : has cfg LongOnly = true
     · simp only [hlo, if_true]
-      exact afterLong specs hwf ⟨opts, nonOpt, none, false⟩ _
+      exact afterLong specs hwf ⟨opts, nonOpt, none, false, extra⟩ _
     · simp only [hlo]
-      exact afterShort specs ⟨opts, nonOpt, none, false⟩ _
+      exact afterShort specs ⟨opts, nonOpt, none, false, extra⟩ _
 
 
 /-! ### The loop -/
 
 /-- The loop variables of `parse` that correspond to a list of items read from state `st`. -/
 def absState (cfg : Nat) (st : PState) (items : List Item) : PState :=
-  ⟨st.opts ++ optsOf true items, st.nonOptArgs ++ operandsOf items, missingOf items,
-    st.stopOpt || ended cfg items⟩
+  ⟨st.opts ++ optsOf false items, st.nonOptArgs ++ operandsOf items, missingOf items,
+    st.stopOpt || ended cfg items, st.extraArg ++ extraOf items⟩
 
 theorem optsOf_append (b) (x y : List Item) : optsOf b (x ++ y) = optsOf b x ++ optsOf b y := by
   simp [optsOf]
+theorem extraOf_append (x y : List Item) : extraOf (x ++ y) = extraOf x ++ extraOf y := by
+  simp [extraOf]
+theorem extraOf_operand (w l) : extraOf (Item.operand w :: l) = extraOf l := rfl
+theorem extraOf_terminator (l) : extraOf (Item.terminator :: l) = extraOf l := rfl
+theorem extraOf_missing (k sp v l) : extraOf (Item.missing k sp v :: l) = extraOf l := rfl
+theorem extraOf_option (k sp v a l) : extraOf (Item.option k sp v a :: l) = extraOf l := rfl
+theorem extraOf_nil : extraOf [] = [] := rfl
 theorem operandsOf_append (x y : List Item) : operandsOf (x ++ y) = operandsOf x ++ operandsOf y := by
   simp [operandsOf]
 theorem missingOf_append (x y : List Item) : missingOf (x ++ y) = (missingOf x).or (missingOf y) := by
@@ -227,37 +309,37 @@ theorem parseLoop_eq (specs : List OptionSpec) (hwf : WF specs) (cfg : Nat) :
     intro ws hlen st hst
     have : ws = [] := List.eq_nil_of_length_eq_zero (by omega)
     subst this
-    obtain ⟨opts, nonOpt, opt, stop⟩ := st
+    obtain ⟨opts, nonOpt, opt, stop, extra⟩ := st
     simp only at hst; subst hst
-    simp [parseLoop, Spec.read, absState, optsOf_nil, operandsOf_nil, missingOf_nil, ended_nil]
+    simp [parseLoop, Spec.read, absState, optsOf_nil, operandsOf_nil, missingOf_nil, ended_nil, extraOf_nil]
   | succ n ih =>
     intro ws hlen st hst
-    obtain ⟨opts, nonOpt, opt, stop⟩ := st
+    obtain ⟨opts, nonOpt, opt, stop, extra⟩ := st
     simp only at hst; subst hst
     cases ws with
-    | nil => simp [parseLoop, Spec.read, absState, optsOf_nil, operandsOf_nil, missingOf_nil, ended_nil]
+    | nil => simp [parseLoop, Spec.read, absState, optsOf_nil, operandsOf_nil, missingOf_nil, ended_nil, extraOf_nil]
     | cons w ws =>
       have hlen' : ws.length ≤ n := by simp at hlen; omega
       cases stop with
       | true =>
-        have hstep : parseStep true specs cfg ⟨opts, nonOpt, none, true⟩ w =
-            .ok ⟨opts, nonOpt ++ [w], none, true⟩ := by simp [parseStep]
+        have hstep : parseStep true specs cfg ⟨opts, nonOpt, none, true, extra⟩ w =
+            .ok ⟨opts, nonOpt ++ [w], none, true, extra⟩ := by simp [parseStep]
         rw [parseLoop, hstep]
         simp only
         rw [ih ws hlen' _ rfl]
-        simp [Spec.read, absState, optsOf_operand, operandsOf_operand, missingOf_operand]
+        simp [Spec.read, absState, optsOf_operand, operandsOf_operand, missingOf_operand, extraOf_operand]
       | false =>
         by_cases hterm : (has cfg StopAfterDoubleDash && w == dd) = true
-        · have hstep : parseStep true specs cfg ⟨opts, nonOpt, none, false⟩ w =
-              .ok ⟨opts, nonOpt, none, true⟩ := by simp [parseStep, hterm]
+        · have hstep : parseStep true specs cfg ⟨opts, nonOpt, none, false, extra⟩ w =
+              .ok ⟨opts, nonOpt, none, true, extra⟩ := by simp [parseStep, hterm]
           rw [parseLoop, hstep]
           simp only
           rw [ih ws hlen' _ rfl]
           simp [Spec.read, hterm, absState, optsOf_terminator, operandsOf_terminator,
-            missingOf_terminator, ended_terminator]
+            missingOf_terminator, ended_terminator, extraOf_terminator]
         · have hterm' : (has cfg StopAfterDoubleDash && w == dd) = false := by simpa using hterm
           by_cases hw : isOptionWord w = true
-          · have hstep := parseStep_optionWord specs hwf cfg ⟨opts, nonOpt, none, false⟩ w rfl rfl hterm' hw
+          · have hstep := parseStep_optionWord specs hwf cfg ⟨opts, nonOpt, none, false, extra⟩ w rfl rfl hterm' hw
             have hitems := optionWord_items cfg specs w
             have ho := operandsOf_isOpt _ hitems
             have hm := missingOf_isOpt _ hitems
@@ -270,26 +352,28 @@ theorem parseLoop_eq (specs : List OptionSpec) (hwf : WF specs) (cfg : Nat) :
             rcases haw : (optionWord cfg specs w).2 with _ | ⟨k, sp, l⟩
             · simp only
               rw [ih ws hlen' _ rfl]
-              simp [absState, optsOf_append, operandsOf_append, missingOf_append, he, ho, hm]
+              simp [absState, optsOf_append, operandsOf_append, missingOf_append, extraOf_append, he, ho, hm]
             · simp only
               cases ws with
               | nil =>
-                simp [parseLoop, absState, optsOf_append, operandsOf_append, missingOf_append, he, ho, hm,
-                  optsOf_missing, operandsOf_missing, missingOf_missing, ended_missing,
-                  optsOf_nil, operandsOf_nil, ended_nil]
+                simp [parseLoop, absState, optsOf_append, operandsOf_append, missingOf_append, extraOf_append,
+                  he, ho, hm, optsOf_missing, operandsOf_missing, missingOf_missing, ended_missing, extraOf_missing,
+                  optsOf_nil, operandsOf_nil, ended_nil, extraOf_nil]
               | cons a ws' =>
                 have hstep2 : parseStep true specs cfg
-                    ⟨opts ++ optsOf true (optionWord cfg specs w).1, nonOpt, some (known k sp l []), false⟩ a =
-                    .ok ⟨opts ++ optsOf true (optionWord cfg specs w).1 ++ [known k sp l a], nonOpt, none, false⟩ := by
+                    ⟨opts ++ optsOf false (optionWord cfg specs w).1, nonOpt, some (known k sp l []), false,
+                      extra ++ extraOf (optionWord cfg specs w).1⟩ a =
+                    .ok ⟨opts ++ optsOf false (optionWord cfg specs w).1 ++ [known k sp l a], nonOpt, none, false,
+                      extra ++ extraOf (optionWord cfg specs w).1⟩ := by
                   simp [parseStep, known]
                 rw [parseLoop, hstep2]
                 simp only
                 rw [ih ws' (by simp at hlen'; omega) _ rfl]
-                simp [absState, optsOf_append, operandsOf_append, missingOf_append, he, ho, hm,
-                  optsOf_option, operandsOf_option, missingOf_option, ended_option, argOf]
+                simp [absState, optsOf_append, operandsOf_append, missingOf_append, extraOf_append, he, ho, hm,
+                  optsOf_option, operandsOf_option, missingOf_option, ended_option, extraOf_option, argOf]
           · have hw' : isOptionWord w = false := by simpa using hw
-            have hstep : parseStep true specs cfg ⟨opts, nonOpt, none, false⟩ w =
-                .ok ⟨opts, nonOpt ++ [w], none, has cfg StopBeforeFirstNonOption⟩ := by
+            have hstep : parseStep true specs cfg ⟨opts, nonOpt, none, false, extra⟩ w =
+                .ok ⟨opts, nonOpt ++ [w], none, has cfg StopBeforeFirstNonOption, extra⟩ := by
               unfold isOptionWord at hw'
               unfold parseStep
               simp only [Bool.false_eq_true, if_false, hterm']
@@ -316,13 +400,14 @@ theorem parseLoop_eq (specs : List OptionSpec) (hwf : WF specs) (cfg : Nat) :
             rw [Spec.read]
             simp only [hterm', Bool.false_eq_true, if_false, hw']
             rcases hs : has cfg StopBeforeFirstNonOption <;>
-              simp [hs, absState, optsOf_operand, operandsOf_operand, missingOf_operand, ended_operand]
+              simp [hs, absState, optsOf_operand, operandsOf_operand, missingOf_operand, ended_operand, extraOf_operand]
 
 /-- `parse` of the fixed code computes exactly the spec's reading. -/
 theorem parse_eq (specs : List OptionSpec) (hwf : WF specs) (cfg : Nat) (args : List Bytes) :
     parse true args specs cfg =
-      .ok ⟨optsOf true (Spec.read cfg specs args false), operandsOf (Spec.read cfg specs args false),
-           missingOf (Spec.read cfg specs args false), ended cfg (Spec.read cfg specs args false)⟩ := by
+      .ok ⟨optsOf false (Spec.read cfg specs args false), operandsOf (Spec.read cfg specs args false),
+           missingOf (Spec.read cfg specs args false), ended cfg (Spec.read cfg specs args false),
+           extraOf (Spec.read cfg specs args false)⟩ := by
   unfold parse
   rw [parseLoop_eq specs hwf cfg args.length args (Nat.le_refl _) PState.init rfl]
   simp [absState, PState.init]
